@@ -143,10 +143,17 @@ where
         mut y: Self::State,
         id: &ID,
     ) -> Result<(Self::State, Option<OneTimeKeyBundle>), Self::Error> {
-        let bundle = y
-            .onetime_bundles
-            .get_mut(id)
-            .and_then(|bundles| bundles.pop());
+        let mut bundle = None;
+        if let Some(bundles) = y.onetime_bundles.get_mut(id) {
+            // Bundles are only verified when they get added: skip (and drop) the ones which expired
+            // in the meantime, we never hand out a key bundle which is not valid right now.
+            while let Some(candidate) = bundles.pop() {
+                if candidate.verify().is_ok() {
+                    bundle = Some(candidate);
+                    break;
+                }
+            }
+        }
         Ok((y, bundle))
     }
 }
